@@ -15,17 +15,17 @@ NA = {
 }
 CHECKS = {
  "C03": dict(cat="exploration", ref="§4 C03", technique="deterministic simulation: seeded scheduler over file-set compositions (company, placement, argv/readdir order, hash seed) on a tmpfs disk; metamorphic oracle against the alone-run",
-   text="Seeded exploration of compositions of a compilation set around a faulty file: the faulty file alone is the reference run; the same file in scheduler-chosen company (0-4 valid files, up to 8 declarations, name reuse; one variant in eight with 6-17 more files; files present only as symbolic links), placement, argument/discovery order, hash seed and entry point (cli::check and the Project API) must still fail and re-report its non-curable codes at the same place. Sampling, not enumeration.",
+   text="Seeded exploration of compositions of a compilation set around a faulty file: the faulty file alone is the reference run; the same file in scheduler-chosen company (0-4 valid files, up to 8 declarations, name reuse; one variant in eight with 6-17 more files; files present only as symbolic links; file names that are not valid UTF-8; an earlier run on the accompanying files alone followed by the faulty file twice), placement, argument/discovery order, hash seed and entry point (cli::check and the Project API) must still fail and re-report its non-curable codes at the same place. Sampling, not enumeration.",
    note="Trusts the analyzer's own verdict on the faulty file alone as reference (worlds whose faulty file does not fail alone are discarded and counted as trivial); name clashes are only required to fail, not to produce a particular code."),
  "C06": dict(cat="exploration", ref="§4 C06", technique="deterministic simulation: seeded scheduler over declaration permutation, file partition, argv/readdir order and OS randomness (hash iteration order via a getrandom seam); metamorphic oracle across variants of one world",
-   text="Each run realises one generated world in 10-24 variants chosen by the scheduler (declaration permutation x partition into <=3 files x argv list/directory/mixture x readdir permutation x hash seed x entry point, plus repeats differing only in OS randomness) and demands the same verdict everywhere and, for single-fault worlds, the same code at the same declaration-relative location. One seed = one exactly repeatable execution; failures are minimised and replayed from a trace file.",
+   text="Each run realises one generated world in 10-24 variants chosen by the scheduler (declaration permutation x partition into <=3 files x argv list/directory/mixture x readdir permutation x hash seed x entry point, plus repeats differing only in OS randomness, mixed stored encodings, files present only as symbolic links, 9-20 file sets, runs from inside the disk with relative arguments, and a preceding run on the same-size repaired set whose leftovers in the temporary directory survive) and demands the same verdict everywhere and, for single-fault worlds, the same code at the same declaration-relative location. One seed = one exactly repeatable execution; failures are minimised and replayed from a trace file.",
    note="Hash iteration order is controlled by interposing getrandom (self-checked on every start); location is compared only when the canonical run places it inside the planted fault; faults made of two declarations may be reported at either one."),
  "C11": dict(cat="exploration", ref="§4 C11", technique="deterministic simulation: real server thread driven in capacity-0 lockstep by a simulated editor, with crash/restart, duplicated delivery and seeded hash order; per-step comparison with a fresh-server reference model and with the real cli::check",
-   text="All notification histories of length <=3 (quick) / <=4 (thorough) over 2 URIs x 5 document classes x {didOpen, didChange} are enumerated, plus random histories up to length 40 with crash/restart, duplicate delivery, multi-change notifications and workspace folders. After every step: exactly one publishDiagnostics(uri, version); equality with a freshly started server holding the current contents; agreement of codes and start positions with cli::check on the same contents.",
+   text="All notification histories of length <=3 (quick) / <=4 (thorough) over 2 URIs x 5 document classes x {didOpen, didChange} are enumerated, plus random histories up to length 40 with crash/restart, duplicate delivery, multi-change notifications, workspace folders (also with unreadable entries), files written and removed on disk between messages, a document named through a symbolic link, ranged edits when the server advertises incremental synchronisation. After every step: exactly one publishDiagnostics(uri, version); equality with a freshly started server holding the current contents; agreement of codes and start positions with cli::check on the same contents.",
    note="The fresh server and cli::check are the same code base (differential against itself under a different history/entry point), so an error common to all three is not seen (e.g. the masked parse error of DESIGN §8 row 1 is invisible to C11); 'exactly one publishDiagnostics' counts the publishes for the notified document, other server output is not constrained; for non-ASCII documents a publish is accepted iff its start positions agree with check in ONE unit (characters, UTF-16 units or bytes) used for all of its diagnostics. Every server incarnation (before/after a simulated crash, every fresh reference server) is a forked process of its own."),
  "C12": dict(cat="fault_enumeration", ref="§4 C12", technique="deterministic simulation with protocol fault injection: seeded random message histories (unknown methods, requests named like notifications and vice versa, client responses, empty/multiple content changes, odd URIs, duplicated delivery, ten shapes of the initialize request, unreadable workspace entries) against the real server thread in lockstep; protocol monitor over the recorded history",
    text="Every protocol fault kind of the quantifier is injected (each with a fired-counter in the evidence, swarm-enabled per run) into histories of up to 60 messages; the monitor checks exactly-once responses with the right id, no response to notifications or client responses, liveness after every step, a served recovery probe after the last fault, and Ok(()) (exit status 0) after shutdown + exit.",
-   note="The stdio framing threads are replaced by in-memory capacity-0 channels; lsp-server's real-time 30 s exit timeout is never allowed to elapse; malformed params are outside the quantifier."),
+   note="The stdio framing threads are replaced by in-memory capacity-0 channels; lsp-server's real-time 30 s exit timeout is never allowed to elapse; real time passes only in rare pause events (3.5 s quick, up to 11 s thorough), so idle timers longer than that are not exercised; malformed params are outside the quantifier."),
  "C13": dict(cat="fault_enumeration", ref="§4 C13", technique="deterministic simulation with storage fault injection: real cli::check/echo/tokenize on a tmpfs disk where a seeded storage actor vanishes, replaces, truncates or rewrites paths at announced fs-points; agreement oracles over hook observations",
    text="Every fault kind (missing path, dangling symlink, symlink loop, empty directory, sub-directory, socket file, unreadable file / unreadable directory / unsearchable directory (real EACCES in a simulated process that has given up root), vanish / file<->dir swap / rewrite / truncate at each of the five fs-points) is injected into generated file sets given as files, directory or mixture in scheduler-chosen order; the run's Result, the OK probe and the diagnostics handed to the renderer must agree, directory == file list, echo/tokenize == per-file truth.",
    note="Exit status is the Result that main returns (a sampled cross-check of 150 fault-free and static-fault executions runs the shipped binary and compares real exit status, OK line and error[P…] codes); what is printed is read back from the captured stdout/stderr of every simulated process. A directory and its file list must agree on the verdict always and on the codes for valid and single-fault worlds. Fault-free layouts include files present only as symbolic links. Mid-read EIO and per-entry readdir errors cannot be produced on tmpfs; a FIFO in a directory (blocking read) is deliberately not generated."),
